@@ -288,11 +288,13 @@ func (p *poller) modify(fd int, event Event) error {
 }
 
 func (p *poller) Del(slot *Slot) error {
-	err := p.DelRead(slot)
-	if err == nil {
-		return p.DelWrite(slot)
+	// Both directions must go, whatever happens to the first one.
+	errRead := p.DelRead(slot)
+	errWrite := p.DelWrite(slot)
+	if errRead != nil {
+		return errRead
 	}
-	return nil
+	return errWrite
 }
 
 func (p *poller) DelRead(slot *Slot) error {
